@@ -298,71 +298,88 @@ def _finish(run, case, drift, stats):
 
 
 # ---------------------------------------------------------------------------------------------------
-def cli_batch(args):
-    """Runs in a worker: materialise several packages in one directory, call `python -m griffe dump` on all of
-    them at once and compare its output with as_json of each package."""
+def cli_case(args):
+    """Runs in a worker: one SerdeCli.tla case = one real `python -m griffe dump REQ1 REQ2 [options]`.  The two
+    packages are concretised shape descriptors; the requests are spelled in the form of the case (by name with -s,
+    by directory path relative to the cwd, by dotted path of a member); the emitted document / files are compared
+    with the spec (which entries) and with as_json of each package (their content)."""
     import griffe  # noqa: PLC0415
+    import re  # noqa: PLC0415
 
-    cases, base, variant = args
-    out = {"variant": variant, "n": len(cases), "problems": [], "cmd": None}
-    work = os.path.join(base, f"cli_{variant['name']}")
-    os.makedirs(work, exist_ok=True)
+    cc, cases, base, num = args
+    how = f"cli:{cc['form']}:{cc['out']}:{cc['agent']}"
+    form_txt = "full" if cc["full"] else "min"
+    out = {"how": how, "form": form_txt, "n": len(cases), "problems": [], "cmd": None}
+    work = os.path.join(base, f"cli_{num}")
+    src = os.path.join(work, "src")
+    os.makedirs(src, exist_ok=True)
     lays = []
     for pos, (_i, c) in enumerate(cases):
         # fresh package names: this worker may have imported the package of the same descriptor from another directory
-        lay = P.layout(c, 1_000_000 + 1000 * CLI_VARIANTS.index(variant) + pos)
+        lay = P.layout(c, 1_000_000 + 100 * num + pos)
         for rel, text in lay["files"].items():
-            p = os.path.join(work, rel)
+            p = os.path.join(src, rel)
             os.makedirs(os.path.dirname(p), exist_ok=True)
             with open(p, "w") as fh:
                 fh.write(text)
         lays.append(lay)
     pkgs = [lay["pkg"] for lay in lays]
-    cmd = [PY, "-m", "griffe", "dump", *pkgs, "-s", work, "-L", "CRITICAL", *variant["flags"]]
+    if cc["form"] == "name":
+        requests, search = pkgs, ["-s", src]
+    elif cc["form"] == "path":
+        requests, search = [os.path.join("src", p) for p in pkgs], []          # relative to the cwd, no search path
+    else:
+        requests, search = [".".join([lay["pkg"], *lay["real_names"]]) for lay in lays], ["-s", src]
+    flags = (["-f"] if cc["full"] else []) + {"static": [], "static-resolved": ["-r", "-I"], "inspect": ["-x"]}[cc["agent"]]
+    # -P: as the installed `griffe` script, without the cwd on sys.path (else `src/p` is found as member of a namespace package `src`)
+    cmd = [PY, "-P", "-m", "griffe", "dump", *requests, *search, "-L", "CRITICAL", *flags]
     outfile = None
-    if variant.get("per_package"):
+    if cc["out"] == "files":
         outfile = os.path.join(work, "out_{package}.json")
         cmd += ["-o", outfile]
     out["cmd"] = " ".join(cmd)
     proc = subprocess.run(cmd, capture_output=True, text=True, cwd=work, env=child_env(), timeout=300, check=False)
     if proc.returncode != 0:
-        out["problems"].append({"what": f"exit status {proc.returncode}: {proc.stderr[-400:]}", "form": variant["form"]})
+        out["problems"].append(f"exit status {proc.returncode}: {proc.stderr[-400:]}")
         return out
     cwd0 = os.getcwd()
     os.chdir(work)
     try:
         expected = {}
-        loader = griffe.GriffeLoader(search_paths=[work], force_inspection="-x" in variant["flags"], store_source=False)
+        loader = griffe.GriffeLoader(search_paths=[src], force_inspection=cc["agent"] == "inspect", store_source=False)
         for lay in lays:
-            loader.load(lay["pkg"], try_relative_path=True)
-        if "-r" in variant["flags"]:
-            loader.resolve_aliases(implicit="-I" in variant["flags"], external=None)
+            loader.load(lay["pkg"])
+        if cc["agent"] == "static-resolved":
+            loader.resolve_aliases(implicit=True, external=None)
         for lay in lays:
-            expected[lay["pkg"]] = loader.modules_collection.members[lay["pkg"]].as_json(full=variant["form"] == "full")
+            expected[lay["pkg"]] = loader.modules_collection.members[lay["pkg"]].as_json(full=cc["full"])
     finally:
         os.chdir(cwd0)
+    # which entries: the spec's `keys` (p1, p2 stand for the two packages)
+    want_keys = sorted(pkgs[int(k[1:]) - 1] for k in cc["keys"])
+    mask = (lambda t: re.sub(r"0x[0-9a-f]+", "0x?", t)) if cc["agent"] == "inspect" else (lambda t: t)   # addresses in reprs differ between processes
     if outfile:
-        for pkg in pkgs:
-            path = outfile.format(package=pkg)
-            want = json.dumps(json.loads(expected[pkg]), indent=2, sort_keys=True)
-            try:
-                with open(path) as fh:
+        got_keys = sorted(f[4:-5] for f in os.listdir(work) if f.startswith("out_") and f.endswith(".json"))
+        if got_keys != want_keys:
+            out["problems"].append(f"files for {got_keys}, requested {want_keys}")
+        for pkg in got_keys:
+            if pkg in expected:
+                with open(outfile.format(package=pkg)) as fh:
                     got = fh.read().rstrip("\n")
-            except OSError as exc:
-                out["problems"].append({"what": f"{pkg}: no output file ({exc})", "form": variant["form"]})
-                continue
-            if got != want:
-                out["problems"].append({"what": f"{pkg}: file differs: {_diff_text(want, got)}", "form": variant["form"]})
+                want = json.dumps(json.loads(expected[pkg]), indent=2, sort_keys=True)
+                if mask(got) != mask(want):
+                    out["problems"].append(f"{pkg}: file differs: {_diff_text(want, got)}")
     else:
-        want = P.canonical_dump(expected)
         got = proc.stdout.rstrip("\n")
-        if "-x" in variant["flags"]:
-            # reprs of inspected objects contain memory addresses, which differ between the two processes
-            import re  # noqa: PLC0415
-
-            want, got = re.sub(r"0x[0-9a-f]+", "0x?", want), re.sub(r"0x[0-9a-f]+", "0x?", got)
-        if got != want:
-            out["problems"].append({"what": f"stdout differs: {_diff_text(want, got)}", "form": variant["form"]})
+        try:
+            got_keys = sorted(json.loads(got))
+        except Exception as exc:  # noqa: BLE001
+            out["problems"].append(f"unparsable output: {exc}")
+            return out
+        if got_keys != want_keys:
+            out["problems"].append(f"entries {got_keys}, requested {want_keys}")
+        elif mask(got) != mask(P.canonical_dump(expected)):
+            out["problems"].append(f"stdout differs: {_diff_text(P.canonical_dump(expected), got)}")
     return out
 
 
@@ -371,15 +388,6 @@ def _diff_text(want: str, got: str) -> str:
         return str(P._first_diff(json.loads(want), json.loads(got)))
     except Exception as exc:  # noqa: BLE001
         return f"unparsable output ({exc}): {got[:200]!r}"
-
-
-CLI_VARIANTS = [
-    {"name": "min", "flags": [], "form": "min", "origins": ("static", "namespace")},
-    {"name": "full", "flags": ["-f"], "form": "full", "origins": ("static", "namespace")},
-    {"name": "full_files", "flags": ["-f"], "form": "full", "per_package": True, "origins": ("static",)},
-    {"name": "full_resolved", "flags": ["-f", "-r", "-I"], "form": "full", "origins": ("static",)},
-    {"name": "inspect", "flags": ["-x"], "form": "min", "origins": ("inspect_nosrc",)},
-]
 
 
 def replay_cases(run: Run, cases: list, stats: dict, base: str, pool, cli_n: int):
@@ -399,23 +407,26 @@ def replay_cases(run: Run, cases: list, stats: dict, base: str, pool, cli_n: int
             judge(run, case, res, stats)
             if res["error"] is None:
                 run.sample({"case": P.case_id(case), "files": res["layout"]["files"], "dec": res.get("dec"), "same": res.get("same")})
-    # ---- the command line --------------------------------------------------------------------------
-    if cli_n:
+    # ---- the command line: every case of SerdeCli.tla on two concretised packages ---------------------------------
+    if cli_n and stats.get("cli_cases"):
         rnd = random.Random(SEED)
-        batches = []
-        for v in CLI_VARIANTS:
-            pool_cases = [(i, c) for i, c in numbered if c["origin"] in v["origins"] and c["part"] == "shape" and c["cwdrel"]
-                          and c["enc"]["full"]["t"] != "raise" and not P.patched(c)]
-            if not pool_cases:
+        jobs_ = []
+        for num, cc in enumerate(stats["cli_cases"]):
+            origins = ("inspect_nosrc",) if cc["agent"] == "inspect" else ("static",)
+            pool_cases = [(i, c) for i, c in numbered if c["origin"] in origins and c["part"] == "shape" and c["cwdrel"] and c["kind"] != "root"
+                          and c["enc"]["full"]["t"] != "raise" and not P.patched(c) and c["guard"] != "stub"]
+            if len(pool_cases) < 2:
                 continue
-            pick = rnd.sample(pool_cases, min(cli_n, len(pool_cases)))
-            batches.append((pick, base, v))
-        for out in pool.map(cli_batch, batches):
+            jobs_.append((cc, rnd.sample(pool_cases, 2), base, num))
+        for out in pool.map(cli_case, jobs_):
             stats["cli-packages"] += out["n"]
+            stats["cli-invocations"] += 1
+            run.replayed()
             run.evaluated(out["n"])
             for prob in out["problems"]:
-                run.violation({"part": "cli", "clause": "dump-equals", "form": prob["form"], "how": "cli:" + out["variant"]["name"]},
-                              f"`{out['cmd']}`: {prob['what']}", {"cmd": out["cmd"], "variant": out["variant"]})
+                run.violation({"part": "cli", "clause": "dump-equals", "form": out["form"], "how": out["how"]},
+                              f"`{out['cmd']}`: {prob}", {"cmd": out["cmd"], "how": out["how"]})
+        stats["cli_cases"] = None
 
 
 def vacuity(cases: list):
@@ -465,6 +476,18 @@ def main(tier: str, replay: str | None = None):
     stats: dict = collections.Counter()
     stats["next_idx"] = 1
     t0 = time.time()
+    # the command-line clause: SerdeCli.tla enumerates the invocations (request form x full x output x agent)
+    rc = tlc.must(tlc.run("SerdeCli", "SerdeCli.cfg", constants={"AGENTS": '{"static", "static-resolved", "inspect"}', "KEYRULE": "registered", "EMIT": "TRUE"}))
+    run.add_tlc(rc)
+    if len(rc.cases) != 36:
+        die(f"C08: SerdeCli.tla emitted {len(rc.cases)} invocations, expected 36")
+    stats["cli_cases"] = rc.cases
+    if tier == "thorough":
+        # model-only regression domain: keeping only the entries named like the request text loses path requests
+        rr = tlc.must(tlc.run("SerdeCli", "SerdeCli.cfg", constants={"AGENTS": '{"static"}', "KEYRULE": "request-prefix", "EMIT": "FALSE"}), allow_violations=True)
+        run.add_tlc(rr)
+        if "EachRequestedPackage" not in rr.violated:
+            die("C08: SerdeCli.tla with KeyRule = request-prefix no longer violates EachRequestedPackage")
     ncpu = os.cpu_count() or 4
     nproc = max(2, min(12, ncpu - 2))
     ctx = multiprocessing.get_context("fork")
@@ -540,11 +563,12 @@ def main(tier: str, replay: str | None = None):
         run.note(f"expression classes without a template in Serde.tla: {unmodelled} (expected: ExprConstant, ExprExtSlice - never instantiated on 3.12)")
     run.extra["expression_classes_not_modelled"] = unmodelled
     # vacuity: every clause must have been exercised, every origin and kind replayed
-    need = {"dump-ok", "cli-packages"}
+    need = {"dump-ok", "cli-packages", "cli-invocations"}
     missing = [k for k in need if not stats[k]]
     if missing:
         die(f"C08: vacuous run, never observed: {missing}")
     stats.pop("next_idx", None)
+    stats.pop("cli_cases", None)
     run.extra["cases_per_part"] = counts
     run.extra["observations"] = dict(stats)
     run.finish()
